@@ -1,7 +1,8 @@
 (* C15 - executable instance of the history-cache model used by the correspondence check and
    by the vm_compute witnesses: alphabet = bytes, separator / role cases / verified-lookup
    flag as translated from the CURRENT source (Gen/C15Consts.v), events = canonical tokens
-   (strings) as harness/c15.py renders the real event dicts:
+   as harness/c15.py renders the real event dicts (every other event, i.e. everything only the
+   runtime produces, is TX <hash of its uid-free content>):
        user       -> "U:"<content>  and, unless it is the last message, "M:"<content>
                      (UtteranceUserActionFinished, UserMessage)
        assistant  -> "S:"<content>, "F:"<content>   (StartUtteranceBotAction, UtteranceBotActionFinished)
@@ -9,7 +10,7 @@
        event      -> "E:"<json>                      (the event itself)
        other role -> nothing
    Nothing here is used by the general theorems. *)
-From Coq Require Import List String Ascii Bool Arith.
+From Coq Require Import List String Ascii Bool Arith NArith.
 From NG Require Import Gen.C15Consts Svc.HistKey Svc.HistCache.
 Import ListNotations.
 Open Scope string_scope.
@@ -35,18 +36,20 @@ Definition verify_now : bool := hist_lookup_verifies_messages.
 Definition is_reply_c (r : role) : bool :=
   match r with RAssistant => true | ROther 0 => true | _ => false end.
 
-Definition tok (tag : string) (body : bytes) : bytes := s2l tag ++ body.
+Inductive etok : Type :=
+| TU (b : bytes) | TM (b : bytes) | TS (b : bytes) | TF (b : bytes) | TC (b : bytes) | TE (b : bytes)
+| TX (h : N).
 
-Definition conv1 (last : bool) (m : msg ascii) : list bytes :=
+Definition conv1 (last : bool) (m : msg ascii) : list etok :=
   match m_role m with
-  | RUser => tok "U:" (m_body m) :: (if last then [] else [tok "M:" (m_body m)])
-  | RAssistant => [tok "S:" (m_body m); tok "F:" (m_body m)]
-  | RContext => [tok "C:" (m_body m)]
-  | REvent => [tok "E:" (m_body m)]
+  | RUser => TU (m_body m) :: (if last then [] else [TM (m_body m)])
+  | RAssistant => [TS (m_body m); TF (m_body m)]
+  | RContext => [TC (m_body m)]
+  | REvent => [TE (m_body m)]
   | ROther _ => []
   end.
 
-Fixpoint conv_c (ms : list (msg ascii)) : list bytes :=
+Fixpoint conv_c (ms : list (msg ascii)) : list etok :=
   match ms with
   | [] => []
   | m :: rest => conv1 (match rest with [] => true | _ => false end) m ++ conv_c rest
@@ -54,9 +57,24 @@ Fixpoint conv_c (ms : list (msg ascii)) : list bytes :=
 
 Definition bytes_eqb : bytes -> bytes -> bool := str_eqb ascii_dec.
 
-Definition events_for_c (verify : bool) := events_for ascii ascii_dec bytes bytes_eqb key_now bytes conv_c verify.
-Definition serve_c (verify : bool) := serve ascii ascii_dec bytes bytes_eqb key_now bytes conv_c verify.
-Definition cache_c := cache ascii bytes bytes.
+Definition etok_eqb (x y : etok) : bool :=
+  match x, y with
+  | TU a, TU b | TM a, TM b | TS a, TS b | TF a, TF b | TC a, TC b | TE a, TE b => bytes_eqb a b
+  | TX a, TX b => N.eqb a b
+  | _, _ => false
+  end.
+
+Definition events_for_c (verify : bool) := events_for ascii ascii_dec bytes bytes_eqb key_now etok conv_c verify.
+Definition serve_c (verify : bool) := serve ascii ascii_dec bytes bytes_eqb key_now etok conv_c verify.
+Definition cache_c := cache ascii bytes etok.
+
+(* tokens as the harness prints them *)
+Definition tU (s : string) := TU (s2l s).
+Definition tM (s : string) := TM (s2l s).
+Definition tS (s : string) := TS (s2l s).
+Definition tF (s : string) := TF (s2l s).
+Definition tC (s : string) := TC (s2l s).
+Definition tE (s : string) := TE (s2l s).
 
 (* ---- case terms printed by the harness ---- *)
 Definition smsg := (role * string)%type.
@@ -66,60 +84,68 @@ Definition mk (m : smsg) : msg ascii := Msg (fst m) (s2l (snd m)).
 Definition check_key (c : list smsg * string) : bool :=
   bytes_eqb (key_now (map mk (fst c))) (s2l (snd c)).
 
-Fixpoint toks_eqb (x y : list bytes) : bool :=
+Fixpoint toks_eqb (x y : list etok) : bool :=
   match x, y with
   | [], [] => true
-  | a :: x', b :: y' => bytes_eqb a b && toks_eqb x' y'
+  | a :: x', b :: y' => etok_eqb a b && toks_eqb x' y'
   | _, _ => false
   end.
 
 (* one observed operation on a real LLMRails instance *)
 Inductive op : Type :=
-| Serve (req : list smsg) (events : list string) (reply : smsg) (new_events : list string)
+| Serve (req : list smsg) (events : list etok) (reply : smsg) (new_events : list etok)
     (* generate_async: request, what _get_events_for_messages returned, returned message,
        events produced by the runtime *)
-| Probe (req : list smsg) (events : list string).
+| Probe (req : list smsg) (events : list etok).
     (* a bare call of _get_events_for_messages (reads the cache, stores nothing) *)
 
 Fixpoint check_ops (verify : bool) (c : cache_c) (ops : list op) : bool :=
   match ops with
   | [] => true
   | Serve req ev r nw :: rest =>
-      let '(c', ev') := serve_c verify c (map mk req) (map s2l nw) (mk r) in
-      toks_eqb ev' (map s2l ev) && check_ops verify c' rest
+      let '(c', ev') := serve_c verify c (map mk req) nw (mk r) in
+      toks_eqb ev' ev && check_ops verify c' rest
   | Probe req ev :: rest =>
-      toks_eqb (events_for_c verify c (map mk req)) (map s2l ev) && check_ops verify c rest
+      toks_eqb (events_for_c verify c (map mk req)) ev && check_ops verify c rest
   end.
 
 Definition check_trace (ops : list op) : bool := check_ops verify_now [] ops.
 
 (* index of the first operation the model disagrees on (for replay files) *)
-Fixpoint first_bad (verify : bool) (c : cache_c) (ops : list op) (i : nat) : option (nat * list bytes) :=
+Fixpoint first_bad (verify : bool) (c : cache_c) (ops : list op) (i : nat) : option (nat * list etok) :=
   match ops with
   | [] => None
   | Serve req ev r nw :: rest =>
-      let '(c', ev') := serve_c verify c (map mk req) (map s2l nw) (mk r) in
-      if toks_eqb ev' (map s2l ev) then first_bad verify c' rest (S i) else Some (i, ev')
+      let '(c', ev') := serve_c verify c (map mk req) nw (mk r) in
+      if toks_eqb ev' ev then first_bad verify c' rest (S i) else Some (i, ev')
   | Probe req ev :: rest =>
       let ev' := events_for_c verify c (map mk req) in
-      if toks_eqb ev' (map s2l ev) then first_bad verify c rest (S i) else Some (i, ev')
+      if toks_eqb ev' ev then first_bad verify c rest (S i) else Some (i, ev')
   end.
+
+Definition show_tok (t : etok) : string :=
+  match t with
+  | TU b => "U:" ++ string_of_list_ascii b | TM b => "M:" ++ string_of_list_ascii b
+  | TS b => "S:" ++ string_of_list_ascii b | TF b => "F:" ++ string_of_list_ascii b
+  | TC b => "C:" ++ string_of_list_ascii b | TE b => "E:" ++ string_of_list_ascii b
+  | TX _ => "X"
+  end%string.
 
 Definition model_answer (ops : list op) : option (nat * list string) :=
   match first_bad verify_now [] ops 0 with
   | None => None
-  | Some (i, ev) => Some (i, map string_of_list_ascii ev)
+  | Some (i, ev) => Some (i, map show_tok ev)
   end.
 
 (* ---- a concrete generation function for the vm_compute witnesses: the reply is "R" and the
    new events are a user-intent marker plus the bot message (any function would do) ---- *)
-Definition G_c (ev : list bytes) : list bytes := [s2l "X:BotIntent"; s2l "S:R"].
-Definition reply_c (nw : list bytes) : msg ascii := Msg RAssistant (s2l "R").
+Definition G_c (ev : list etok) : list etok := [TX 1; tS "R"].
+Definition reply_c (nw : list etok) : msg ascii := Msg RAssistant (s2l "R").
 
 Definition shared_c (verify : bool) (convs : nat -> list (list (msg ascii))) (sched : list nat) (c : nat) :=
-  shared_trace ascii ascii_dec bytes bytes_eqb key_now bytes conv_c G_c reply_c verify convs sched c.
+  shared_trace ascii ascii_dec bytes bytes_eqb key_now etok conv_c G_c reply_c verify convs sched c.
 Definition alone_c (verify : bool) (ts : list (list (msg ascii))) :=
-  alone ascii ascii_dec bytes bytes_eqb key_now bytes conv_c G_c reply_c verify ts.
+  alone ascii ascii_dec bytes bytes_eqb key_now etok conv_c G_c reply_c verify ts.
 
 (* F6: conversation 0 says "a" (reply "R"); conversation 1 says "a:R" then "q" in one request *)
 Definition f6_convs (c : nat) : list (list (msg ascii)) :=
@@ -129,8 +155,8 @@ Definition f6_convs (c : nat) : list (list (msg ascii)) :=
   | _ => []
   end.
 
-Definition show_obs (o : obs ascii bytes) : list string * string :=
-  (map string_of_list_ascii (o_events _ _ o), string_of_list_ascii (m_body (o_reply _ _ o))).
+Definition show_obs (o : obs ascii etok) : list string * string :=
+  (map show_tok (o_events _ _ o), string_of_list_ascii (m_body (o_reply _ _ o))).
 
 Eval vm_compute in map show_obs (shared_c false f6_convs [0; 1] 1).
 Eval vm_compute in map show_obs (alone_c false (f6_convs 1)).
